@@ -244,9 +244,9 @@ def hier_design(rng, kinds=None):
         avail.append(wire)
         return wire
 
-    def inst_block(parent, plan, tag):
+    def inst_block(parent, plan, tag, inst_name=None):
         uid[0] += 1
-        name = f'b{uid[0]}'
+        name = f'b{uid[0]}'          # unique prefix for the wires; the INSTANCE name may repeat under different parents
         in_wires = [get_in(w) for (_, w) in plan['inputs']]
         keys = [('node', j, k) for j, nd in enumerate(plan['nodes']) for k in range(len(nd['outw']))]
         keys = rng.shuffle(keys)[:rng.randint(1, min(3, len(keys)))]
@@ -255,10 +255,10 @@ def hier_design(rng, kinds=None):
         p2 = _rename(plan, name)
         for nd in p2['nodes']:
             pass
-        Block(parent, name, _uniq(p2, name), in_wires, keys, out_wires, hw)
+        Block(parent, inst_name or name, _uniq(p2, name), in_wires, keys, out_wires, hw)
         for ow in out_wires:
             avail.append(ow)
-        desc.append(dict(block=name, plan=tag, parent=parent.name, outs=[o.name for o in out_wires]))
+        desc.append(dict(block=inst_name or name, plan=tag, parent=parent.name, outs=[o.name for o in out_wires]))
         return out_wires
 
     mids = []
@@ -267,7 +267,9 @@ def hier_design(rng, kinds=None):
         if rng.chance(1, 3):
             mid = Top(top, f'mid{t}')
             mids.append(mid)
-            ows = inst_block(mid, plans[k], k)
+            # instance names are unique among siblings only: blocks of the same class, with different contents, may carry the
+            # same instance name under different parents
+            ows = inst_block(mid, plans[k], k, inst_name='blk' if rng.fork(('samename', t)).chance(1, 2) else None)
             # mid's own ports: everything its block touches
             blk = list(mid.children.values())[0]
             for p in blk.inPorts:
